@@ -139,8 +139,9 @@ class Unit:
         if rc != 0:
             raise Fault('ll2c failed on unit %s:\n%s' % (self.name, out[-3000:]))
         self.info = json.load(open(os.path.join(w, 'info.json')))
-        if self.info.get('unused_loop_specs'):
-            raise Fault('loop-contract table names loops that do not exist in unit %s: %s' % (self.name, self.info['unused_loop_specs']))
+        # a loop named by the loop-contract table that no longer exists (the function was rewritten without that
+        # loop) is not a fault: checks of that function then run WITHOUT loop contracts (other loops get unwound)
+        self.vanished_loops = set(fn for fn, lab in self.info.get('unused_loop_specs', []))
         defined = set(self.info['defined'])
         for c in self.checks:
             if c.fn not in defined:
@@ -379,10 +380,19 @@ def compile_and_instrument(chk, r, tier, inline_all=False, loop_contracts=None):
     inst = os.path.join(d, 'inst.gb')
     cmd = ['goto-instrument', '--dfcc', chk.harness, '--enforce-contract-rec' if chk.get('rec', tier) == '1' else '--enforce-contract', chk.fn]
     repl = [x for x in (chk.get('replace', tier) or '').split(',') if x]
+    # every function whose body the unit DROPS (override.drop) and that has a contract declaration is an assumed
+    # contract of the whole unit: replace its calls in every check, so that a changed caller that starts calling it
+    # is still judged (instead of hitting an undefined function)
+    for g in unit.cfg.get('override', {}).get('drop', []):
+        if g != chk.fn and g not in repl and contract_clauses(r.pp_text, g) is not None:
+            repl.append(g)
     if not inline_all:
         for g in repl:
             cmd += ['--replace-call-with-contract', g]
     use_loops = (chk.get('loops', tier) == '1') if loop_contracts is None else loop_contracts
+    if use_loops and getattr(unit, 'vanished_loops', None) and unit.vanished_loops:
+        use_loops = False
+        r.note += 'loop contract dropped: the annotated loop no longer exists in %s; ' % ','.join(sorted(unit.vanished_loops))
     if use_loops:
         cmd += ['--apply-loop-contracts']
     cmd += [allgb, inst]
@@ -410,6 +420,8 @@ def solve(chk, r, tier, inline_all=False, loop_contracts=None, unwind_override=N
     inst = compile_and_instrument(chk, r, tier, inline_all, loop_contracts)
     backends = (chk.get('backends', tier) or 'minisat,kissat,cvc5').split(',')
     tmo = int(chk.get('timeout', tier) or 300)
+    if chk.get('loops', tier) == '1' and not r.loop_contracts and unwind_override is None and not chk.get('unwind', tier):
+        unwind_override = chk.kv.get('fallback_unwind', '70')
     flags = cbmc_flags(chk, tier, unwind_override)
     r.inst = inst; r.flags = flags
     r.obligations = {}; r.mustfail = {}
@@ -746,7 +758,11 @@ def judge(r, prop, tier, work, outdir, violations, known, inconclusive):
     # counterexample + native replay
     first = None
     for n in failed:
-        if PROPERTY_LEVEL.search(n):
+        if n.startswith(chk.fn + '.postcondition.'):
+            first = n
+            break
+    for n in failed:
+        if first is None and PROPERTY_LEVEL.search(n) and not n.startswith('__CPROVER'):
             first = n
             break
     first = first or failed[0]
